@@ -51,4 +51,46 @@ CHECKS = {
         quick=dict(tests=[dict(name="TestC10", cases=160000), dict(name="TestC10CLI", cases=1600)]),
         thorough=dict(tests=[dict(name="TestC10", cases=3200000), dict(name="TestC10CLI", cases=32000)]),
     ),
+    "C01": dict(
+        level="exploration",
+        rule=("Inputs: accepted journals from the history generator (several commodities, negative/zero amounts, accruals, closes, assertions, @performance, "
+              "optionally shuffled) with a price forest declared on the first day (so every commodity has a price in every other), x drawn flags: "
+              "--from/--to (absent/inside/outside/period boundary), interval, --last, --diff, --close=false, -v V for a drawn commodity (with/without -s), -a, "
+              "-m level>=1[:suffix],regex lists, --remap; exact output only (--csv or --digits 9). Excluded as the statement says: --account, --commodity, -m 0. "
+              "Oracle: invariant over the report - every Delta cell is zero and Total (A+L) equals the displayed Total (E+I+E) per commodity and column. "
+              "Non-trivial: >=2 transactions, a non-zero total cell, and (valued or >=2 commodities or >=2 columns); distinct by (journal text, flags)."),
+        assumptions=["a non-zero exit of knut makes the case vacuous for C01 (label knut-rejected in the histogram; C04/C03 decide those)"],
+        quick=dict(tests=[dict(name="TestC01", cases=8000)]),
+        thorough=dict(tests=[dict(name="TestC01", cases=160000)]),
+    ),
+    "C02": dict(
+        level="exploration",
+        rule=("Inputs: accepted journals from the history generator (accruals, closes, negative/zero amounts, Unicode names, shuffled order) x drawn flags: "
+              "--from/--to, interval, --last, --diff, --close=false, --account/--commodity regexes built from the journal's names, -m level[:suffix],regex lists "
+              "(incl. level 0, suffix>0, non-matching rules), --remap; text renderer at --digits 9 (exact for <=8 decimals), tree read from indentation. "
+              "Oracle: reference ledger (DESIGN App. B.4: window, partition, period closing of income/expense accounts into Equity:Equity at each shown period start, "
+              "filters on each posting half, remap/shorten, cumulative or per-period cells, totals, Delta) - compared are column headers, every cell (missing line = 0), "
+              "the set of account rows (booked accounts plus ancestors), totals and Delta. Row order is not compared (C06). Where --remap and -m are both given and the two "
+              "application orders differ, either is accepted. Non-trivial: >=3 in-window bookings, >=2 non-zero cells and a mapping/remap/filter/diff/last or closing over >=2 columns."),
+        assumptions=["accrual split rule as documented", "knut's regexp engine (Go regexp) is also used by the reference for flag regexes"],
+        quick=dict(tests=[dict(name="TestC02", cases=8000)]),
+        thorough=dict(tests=[dict(name="TestC02", cases=160000)]),
+    ),
+    "C12": dict(
+        level="exploration",
+        rule=("Inputs: sequences of 0-10 price declarations over 2-7 commodities (general graphs: chains, stars, cycles, disconnected parts; both directions; "
+              "redeclarations over time incl. direction flips; self pairs; zero prices; prices 1e-8..1e6 with <=8 decimals incl. one whose reciprocal sits on a "
+              "16-digit rounding boundary), a drawn valuation commodity V, declaration order in the file independent of the order of effect. "
+              "Oracle: own price graph in exact rationals (latest declaration per pair, reciprocal and product truncated at 8 decimals per step, every simple chain from V enumerated). "
+              "Library: after every Insert, Normalize(V) 8 times, each result judged per commodity (V=1; directly declared pair = latest declaration or its truncated reciprocal, strictly; "
+              "otherwise equal to the product along SOME simple chain; unconnected = Price and Valuate return an error; zero price = Insert errors and leaves Prices unchanged; "
+              "Valuate(c,x)=trunc8(x*price)), and the 8 results identical. CLI: one unit of each commodity in its own account, `knut balance -v V --color=false --digits 8`, "
+              "cell = price by the same rules; unconnected held commodity or zero price = exit non-zero, stderr non-empty, stdout empty. "
+              "Non-trivial: V's component has a commodity reached only by a chain of length >=2, a reciprocal, a redeclared pair, or alternative chains; distinct by case."),
+        assumptions=["prices are declared with at most 8 decimals and are positive (the statement does not say what a longer or negative price means)",
+                     "CLI: declarations of one journal get pairwise different dates (same-day order is not part of the statement)",
+                     "the reciprocal may be either neighbouring 8-decimal value when the exact quotient lies within 1e-16 below a boundary"],
+        quick=dict(tests=[dict(name="TestC12", cases=20000), dict(name="TestC12CLI", cases=320)]),
+        thorough=dict(tests=[dict(name="TestC12", cases=300000), dict(name="TestC12CLI", cases=5000)]),
+    ),
 }
